@@ -106,6 +106,7 @@ fn alphabet(n: usize, tier: Tier) -> Vec<Dev> {
     }));
     d.extend(crate::devs::rich_generic_devs(true));
     d.extend(crate::devs::rare_shape_devs(n, true));
+    d.extend(crate::devs::rebound_prelude_devs());
     d.extend(crate::devs::syntax_devs(false, false, true, false).into_iter().filter(|d| d.label.contains("doc(hidden)")));
     for v in ["pub(crate)", "pub(super)"] {
         d.push(dev(format!("enum vis {}", v), &["evis"], move |s| {
